@@ -94,6 +94,14 @@ def r3_r4_recv_buffer(ctx):
     local = bt[2]
     same = var_name(o.of_operand(rb[0].args[1])) == bt[1] and o.of_operand(rb[0].args[1])[2] == local
     ctx.ob("R01.3", "recv_loop:one-buffer", same, rb[0].site, "read_buf appends to the buffer decode consumes" if same else "read_buf and decode use different buffers")
+    # a read that returns 0 bytes is taken for the end of the connection — true only for an uncapped read into a buffer with room:
+    # a limiting adaptor in front of the transport (`take(limit - buffer.len())`) reads 0 bytes as soon as the cap is reached, e.g.
+    # while a maximum-size frame (7 + 65535 bytes, more than a 64 KiB cap) is being assembled, and the session is closed
+    rt = o.of_operand(rb[0].args[0])
+    capped = [s_ for s_ in subterms(rt) if isinstance(s_, tuple) and s_ and s_[0] == "call" and s_[1].split("::")[-1] in ("take", "chain", "take_while")]
+    ctx.ob("R01.3", "recv_loop:read-is-not-capped", not capped, rb[0].site, "read_buf reads from the session's reader itself" if not capped else
+           "the transport read goes through `%s(..)`: once the cap is reached the read returns 0 bytes, which the loop takes for the peer closing — a frame larger than the cap (a full-size Waste or data frame) "
+           "ends the session, and everything behind it is lost" % capped[0][1].split("::")[-1])
     # initialised outside every cycle
     inits = [d for d in body.defs().get(local, []) if d[0] in ("assign", "call")]
     in_cycle = [d for d in inits if cfg.in_cycle(d[1])]
@@ -625,6 +633,8 @@ def run(ctx):
     r17_fill_loops_write_at_the_cursor(ctx)
     from . import C09 as _C09w
     _C09w.r9_write_errors_funnel(ctx)   # a failed transport write is never retried: the transport may hold a prefix of the frame, and a second attempt sends that prefix twice
+    from . import C02 as _C02a
+    _C02a.r3_allocator(ctx)     # every open takes an id of its own in one atomic step: two streams with one id share one inbound queue
     from . import C11 as _C11c
     _C11c.r7_cancellation(ctx)    # a frame write dropped half-way leaves a fragment in front of the stream data that follows
     from . import C17 as _C17
